@@ -1,5 +1,6 @@
 import ShellOp.Drv.Worker
 import ShellOp.Model.Routing
+import ShellOp.Model.WaitHead
 /-! Line-protocol suite for C03: the shared worker suite (`Drv/Worker`) plus the op `schedfan`
 (`Model/Routing`: the links map of the real schedule controller and the fan-out of one tick). -/
 namespace ShellOp.Drv.C03
@@ -23,8 +24,26 @@ def extItems (st : Worker.St) (q : Nat) (f : Queue.Items → Queue.Items) : Work
     let s' : ShellOp.Worker.State := { st.s with qs := ShellOp.Worker.upd st.s.qs q { qs with items := f qs.items } }
     ({ st with s := s' }, Worker.obs s')
 
+/-- `e:items` — one head check of the wait loop: expired?, what the queue held -/
+def look? (s : String) : Option WaitHead.Look :=
+  match s.splitOn ":" with
+  | [e, its] => (Worker.items? its).map fun i => ⟨e == "1", i, i⟩
+  | _ => none
+
 def step (st : Worker.St) (toks : List String) : Worker.St × String :=
   match toks with
+  | "waithead" :: args =>
+    -- waitForTask over what the queue held at each of its looks (Model/WaitHead): the task it returns
+    match (kv? "sleep" args).bind String.toNat?, (kv? "first" args).bind Worker.items?, kv? "looks" args with
+    | some sleep, some first, some ls =>
+      let ls := if ls == "-" then [] else ls.splitOn ";"
+      match ls.mapM look? with
+      | some looks => match WaitHead.waitForTask sleep ⟨true, first, first⟩ looks with
+        | some (some t) => (st, toString t)
+        | some none => (st, "nil")
+        | none => (st, "waiting")
+      | none => (st, "bad-op")
+    | _, _, _ => (st, "bad-op")
   | ["ext", "addfirst", q, t] => match q.toNat?, t.toNat? with
     | some q, some t => extItems st q (fun its => Queue.addFirst its t)
     | _, _ => (st, "bad-op")
